@@ -113,6 +113,9 @@ type Case struct {
 	Bind   int      `json:"bind_kind_of_a,omitempty"`
 	Args   []int    `json:"args,omitempty"`
 	Lines  []string `json:"lines,omitempty"`
+	// T calls sharing one Args map
+	Shared   []SharedCall `json:"calls_sharing_one_args_map,omitempty"`
+	Reversed bool         `json:"rendered_in_reverse_order,omitempty"`
 }
 
 func checkT(c *core.Ctx, format string, kind int) {
@@ -169,6 +172,66 @@ func checkT(c *core.Ctx, format string, kind int) {
 		return
 	}
 	c.Fail("", cs, "T(%q) with a=%s: got %q want %q", format, bindKinds[kind], got, want)
+}
+
+// ---------------------------------------------------------------- T: several templates over ONE Args map
+
+var sharedFormats []string
+
+var sharedExtras = []string{"nothing more", "Arg(a, V)", "Arg(a, W)", "Args{a: V}", "Arg(c, X)"}
+
+func extraArgs(k int) ([]snippet.TArg, map[string]string) {
+	switch k {
+	case 1:
+		return []snippet.TArg{snippet.Arg("a", snippet.Block("V"))}, map[string]string{"a": "V"}
+	case 2:
+		return []snippet.TArg{snippet.Arg("a", snippet.Block("W"))}, map[string]string{"a": "W"}
+	case 3:
+		return []snippet.TArg{snippet.Args{"a": snippet.Block("V")}}, map[string]string{"a": "V"}
+	case 4:
+		return []snippet.TArg{snippet.Arg("c", snippet.Block("X"))}, map[string]string{"c": "X"}
+	}
+	return nil, map[string]string{}
+}
+
+type SharedCall struct {
+	Format string `json:"format"`
+	Extra  int    `json:"extra_argument_after_the_shared_map"`
+}
+
+// checkTShared: the caller keeps one Args map {b: B!} and passes it - followed by the call's own extra
+// argument - to several T calls; all templates are built first and rendered afterwards (snippets
+// render lazily), in the given order. Each rendering is judged against the bindings of ITS call.
+func checkTShared(c *core.Ctx, calls []SharedCall, renderReversed bool) {
+	cs := Case{Kind: "T-shared-args", Shared: calls, Reversed: renderReversed}
+	c.Eval(1)
+	common := snippet.Args{"b": snippet.Block("B!")}
+	ts := make([]snippet.Snippet, len(calls))
+	bounds := make([]map[string]string, len(calls))
+	for i, call := range calls {
+		extra, bound := extraArgs(call.Extra)
+		bound["b"] = "B!"
+		bounds[i] = bound
+		ts[i] = snippet.T(call.Format, append([]snippet.TArg{common}, extra...)...)
+	}
+	order := make([]int, len(calls))
+	for i := range order {
+		order[i] = i
+		if renderReversed {
+			order[i] = len(calls) - 1 - i
+		}
+	}
+	nilBound = map[string]bool{}
+	for _, i := range order {
+		c.Trans(1)
+		want, wantPanic := refT(calls[i].Format, bounds[i], false, false)
+		got, _, pan := render(ts[i])
+		if wantPanic != (pan != nil) || (!wantPanic && got != want) {
+			c.Fail("", cs, "call %d of %d over one shared Args map {b}: T(%q, shared, %s) rendered %q (panic=%v), its own bindings give %q (panic=%v)", i+1, len(calls), calls[i].Format, sharedExtras[calls[i].Extra], got, pan, want, wantPanic)
+			return
+		}
+	}
+	c.Nontrivial(fmt.Sprint("shared|", calls, renderReversed))
 }
 
 // ---------------------------------------------------------------- Sprintf
@@ -455,7 +518,7 @@ func buildSeq(ch *core.Chooser, n int, maxLen int) []int {
 }
 
 func run(c *core.Ctx) {
-	tLen := c.Pick(5, 6)
+	tLen := c.Pick(5, 7)
 	sLen := c.Pick(5, 6)
 	c.Bound("T_alphabet", tAlphabet)
 	c.Bound("T_max_len", tLen)
@@ -464,6 +527,36 @@ func run(c *core.Ctx) {
 	c.Bound("Sprintf_max_len", sLen)
 	c.Bound("Sprintf_args", []string{"string", "int", "snippet", "reflect.Type", "empty-block", "empty-template"})
 	c.Bound("Sprintf_max_args", 2)
+
+	// histories: 2 (3) T calls over one shared Args map, every format <=2 over {@a, @b, @c, x}
+	core.Explore(c, core.ExploreOpts{Bound: -1}, func(ch *core.Chooser, _ bool) {
+		if f := buildStr(ch, []string{"@a", "@b", "@c", "x"}, 2); f != "" {
+			sharedFormats = append(sharedFormats, f)
+		}
+	})
+	c.Bound("shared_args_histories", map[string]any{"calls": c.Pick(2, 3), "formats": sharedFormats, "extra_argument": sharedExtras, "render_order": []string{"as built", "reversed"}})
+	var rec func(prefix []SharedCall, n int)
+	rec = func(prefix []SharedCall, n int) {
+		if len(prefix) == n {
+			if c.Next() {
+				checkTShared(c, prefix, false)
+				checkTShared(c, prefix, true)
+			}
+			return
+		}
+		for _, f := range sharedFormats {
+			for e := range sharedExtras {
+				if len(prefix) >= 2 && e > 2 {
+					continue // third call: extras {nothing, a=V, a=W}
+				}
+				rec(append(append([]SharedCall{}, prefix...), SharedCall{f, e}), n)
+			}
+		}
+	}
+	rec(nil, 2)
+	if c.Thorough() {
+		rec(nil, 3)
+	}
 
 	core.Explore(c, core.ExploreOpts{Bound: -1}, func(ch *core.Chooser, _ bool) {
 		f := buildStr(ch, tAlphabet, tLen)
@@ -527,6 +620,8 @@ func replay(c *core.Ctx, raw json.RawMessage) {
 		return
 	}
 	switch cs.Kind {
+	case "T-shared-args":
+		checkTShared(c, cs.Shared, cs.Reversed)
 	case "T":
 		checkT(c, cs.Format, cs.Bind)
 	case "Sprintf":
@@ -543,7 +638,7 @@ func replay(c *core.Ctx, raw json.RawMessage) {
 func init() {
 	core.Register(&core.Prop{
 		ID: "C09", Level: "model_checking", Run: run, Replay: replay,
-		Rule: "T: every format string of <=L symbols over a 12-symbol alphabet (name runes, '@', apostrophe, '%', space, newline, punctuation, non-ASCII) x 9 binding configurations (the name a unbound / nil / empty / literal / nested template / placeholder-looking text, each next to two other bound names; and no arguments at all / only an empty Args map / only a nil TArg); Sprintf: every format <=L over 8 symbols x every argument list <=2 of 6 argument kinds (incl. empty snippets) with legal verb pairing; Comment over all line lists <=4 of 5 lines; GoDirective over 3 directives x argument lists <=3; Snippets/Fragments over part lists <=3..4 of 7 part kinds. Non-trivial = the format contains a placeholder/verb introducer (or more than one line/part); states = distinct (construct, panic?, introducer count) classes",
+		Rule: "T: every history of 2 (3) T calls that share ONE caller-owned Args map followed by the call's own extra argument (20 formats x 5 extras per call, all built first, rendered in both orders, each judged against its own bindings); every format string of <=L symbols over a 12-symbol alphabet (name runes, '@', apostrophe, '%', space, newline, punctuation, non-ASCII) x 9 binding configurations (the name a unbound / nil / empty / literal / nested template / placeholder-looking text, each next to two other bound names; and no arguments at all / only an empty Args map / only a nil TArg); Sprintf: every format <=L over 8 symbols x every argument list <=2 of 6 argument kinds (incl. empty snippets) with legal verb pairing; Comment over all line lists <=4 of 5 lines; GoDirective over 3 directives x argument lists <=3; Snippets/Fragments over part lists <=3..4 of 7 part kinds. Non-trivial = the format contains a placeholder/verb introducer (or more than one line/part); states = distinct (construct, panic?, introducer count) classes",
 		Assumptions: []string{
 			"formats containing BOM/NUL/invalid UTF-8 are outside the alphabet (text/scanner artefacts, statement silent)",
 			"untyped-nil Snippet interface values as arguments are outside the alphabet",
